@@ -531,6 +531,30 @@ func runC11(c *Ctx) {
 					ok = true
 					how = "dominated by clientReqNeedsPrep: only set for body-preparing client protocols, none of which is enveloped (type-level), and the un-enveloped side of the message reader always resets the message before returning"
 				}
+				// (iii) a disjunction: on every edge into the block either that flag is known, or
+				// 'the client's protocol has no envelopes' is known directly (defect D59)
+				if !ok && lemmaA && lemmaB && clientPrepCell.fld != nil && a.flagCorrelated(prepFlag, clientPrepCell, 0) {
+					cliEnvF := p.MustField("operation", "clientEnveloper")
+					all := len(call.Block().Preds) > 0
+					for _, pr := range call.Block().Preds {
+						edgeOK := false
+						for _, f := range FactsOnEdge(pr, call.Block()) {
+							if f.Truth && LoadedField(f.Cond) == prepFlag {
+								edgeOK = true
+							}
+							if cmp, isCmp := f.AsCmp(); isCmp && cmp.Op == token.EQL && IsNilConst(cmp.Y) && LoadedField(cmp.X) == cliEnvF {
+								edgeOK = true
+							}
+						}
+						if !edgeOK {
+							all = false
+						}
+					}
+					if all {
+						ok = true
+						how = "on every edge into this block either clientReqNeedsPrep is known (body-preparing client protocols are not enveloped) or clientEnveloper == nil is known: the un-enveloped side of the message reader always resets the message before returning"
+					}
+				}
 			}
 			c.Check(ok, "C11.7", FuncName(fn), "markReady-on-error-edge", call.Pos(), how,
 				"a message is marked ready on an error edge (error tolerated as 'empty message') although the callee may have returned before giving the message a buffer: nil dereference for an empty body from an enveloped client")
